@@ -71,7 +71,9 @@ pub fn u_to_bytes(u: u128) -> [u8; 9] {
 pub fn approx_exp(x: f64, ccs: f64) -> u64 {
     let two63 = 9223372036854775808.0f64;
     let mut y: u64 = C[0];
-    let z: u64 = (x * two63).floor() as u64;
+    // x is non-negative by construction in the specification; a rounding-level negative x (possible
+    // when (z-r)^2/(2 sigma'^2) and z0^2/(2 sigma_max^2) coincide mathematically) is treated as 0
+    let z: u64 = if x > 0.0 { (x * two63).floor() as u64 } else { 0 };
     for c in C.iter().skip(1) {
         let zy = ((z as u128) * (y as u128)) >> 63;
         y = c.wrapping_sub(zy as u64);
@@ -82,7 +84,8 @@ pub fn approx_exp(x: f64, ccs: f64) -> u64 {
 
 /// the 64-bit comparison word of Algorithm 14
 pub fn ber_exp_threshold(x: f64, ccs: f64) -> u64 {
-    let s = (x / LN2).floor();
+    // s = integer part of x / ln 2 (truncation: a rounding-level negative x gives s = 0)
+    let s = if x > 0.0 { (x / LN2).floor() } else { 0.0 };
     let r = x - s * LN2;
     let s = if s > 63.0 { 63u32 } else { s as u32 };
     let z = (((approx_exp(r, ccs) as u128) << 1) - 1) >> s;
